@@ -370,7 +370,8 @@ def malformed_history(rng):
             tgt = victim if rng.random() < 0.8 else rng.choice(["rX", ""] + others[:0])
             g.txn(tgt if tgt else "rX")
             spec = g.ops.pop().split(" ", 3)[3]
-            g.ops.append("proc mut %s seed=%d %s" % (tgt if tgt else "rX", rng.randrange(1, 2 ** 48), spec))
+            kind = " kind=span" if rng.random() < 0.3 else ""
+            g.ops.append("proc mut %s seed=%d%s %s" % (tgt if tgt else "rX", rng.randrange(1, 2 ** 48), kind, spec))
         elif k < 0.75:
             # a damaged log event (shorter than 4 bytes) in an otherwise well-formed message for a healthy run
             g.txn(rng.choice(others), shortlog=rng.random() < 0.35)
